@@ -98,7 +98,8 @@ def _reserved_name(name: str) -> bool:
     from pyopenapi_gen.core.utils import NameSanitizer
 
     low = re.sub(r"[^0-9a-zA-Z]", "", name).lower()
-    return low in NameSanitizer.RESERVED_NAMES or keyword.iskeyword(low)
+    return (low in NameSanitizer.RESERVED_NAMES or keyword.iskeyword(low)
+            or NameSanitizer.sanitize_class_name(name).endswith("_"))  # class name gets the reserved/keyword suffix
 
 
 def _promotable(node: dict) -> bool:
@@ -718,8 +719,12 @@ def is_valid_openapi(spec: dict) -> bool:
 
 def valid_case(case: dict) -> bool:
     cfg = case.get("cfg") or {}
-    if not isinstance(cfg.get("out"), str) or not cfg["out"] or cfg.get("naming") not in ("operationId", "clean", "path") or cfg.get("fmt") not in ("json", "yaml"):
+
+    def dotted(p):
+        return isinstance(p, str) and p != "" and all(seg.isidentifier() for seg in p.split("."))
+
+    if not dotted(cfg.get("out")) or cfg.get("naming") not in ("operationId", "clean", "path") or cfg.get("fmt") not in ("json", "yaml"):
         return False
-    if cfg.get("core") is not None and not (isinstance(cfg["core"], str) and cfg["core"]):
+    if cfg.get("core") is not None and not dotted(cfg["core"]):
         return False
     return isinstance(case.get("spec"), dict) and is_valid_openapi(case["spec"])
